@@ -463,8 +463,13 @@ func (e *Enc) specCall(n *ast.CallExpr, env *SpecEnv) Val {
 			for k, v := range env.oldVars {
 				ne.vars[k] = v
 			}
-			ne.blk = nil
 		}
+		ne.old, ne.oldVars = nil, nil
+		return e.evalSpec(n.Args[0], &ne)
+	case "entry":
+		// value in the state at function entry (old() inside step clauses means the loop head)
+		ne := *env
+		ne.st = e.entry
 		ne.old, ne.oldVars = nil, nil
 		return e.evalSpec(n.Args[0], &ne)
 	case "fresh":
@@ -557,6 +562,23 @@ func (e *Enc) specCall(n *ast.CallExpr, env *SpecEnv) Val {
 	case "ghost":
 		name := n.Args[0].(*ast.Ident).Name
 		return e.ghost(env.st, name)
+	case "rscur", "rslen":
+		e.rsDecls()
+		o := e.objRef(arg(0))
+		if fname == "rslen" {
+			return intVal(fmt.Sprintf("(rslen %s)", o))
+		}
+		return intVal(e.sel(e.rsHeap(env.st), o, ""))
+	case "rsin":
+		e.rsDecls()
+		return intVal(fmt.Sprintf("(rsin %s %s)", e.objRef(arg(0)), arg(1).T))
+	case "content":
+		return strVal(e.sel(e.contentHeap(env.st), e.objRef(arg(0)), ""))
+	case "scat":
+		return strVal(e.strCat(arg(0).T, arg(1).T))
+	case "srune":
+		t := e.define("srune", "Str", fmt.Sprintf("(srune %s)", arg(0).T))
+		return strVal(t)
 	}
 	// conversion to a named type: T(x)
 	if fname == "" {
@@ -587,6 +609,18 @@ func (e *Enc) specCall(n *ast.CallExpr, env *SpecEnv) Val {
 		}
 	}
 	specFail("unknown spec function %q", fname)
+	panic("unreachable")
+}
+
+// objRef: the reference behind a pointer or an interface holding a pointer.
+func (e *Enc) objRef(v Val) string {
+	switch v.Sh.K {
+	case KIface:
+		return v.Sub[1].T
+	case KInt:
+		return v.T
+	}
+	specFail("not an object reference: %s", v.Sh.T)
 	panic("unreachable")
 }
 
